@@ -503,11 +503,74 @@ def _walk_arm_after(F, rep, variant, ords, after):
     return outs
 
 
+def rule_r5(F, rep):
+    from . import pushgraph, cfg
+    R = rep.rule("C08.R5", "object equality looks only at visible fields: in the equality states the field names of both "
+                 "operands come from get_visible_fields_order, and no visibility-blind membership query (has_field, "
+                 "find_field, get_fields_order) takes part in deciding whether the two objects have the same fields — a "
+                 "hidden field on one side must not stand in for a visible one on the other")
+    OBJD = "rsjsonnet_lang::program::data::ObjectData"
+    blind = {"<%s>::has_field" % OBJD, "<%s>::find_field" % OBJD, "<%s>::get_fields_order" % OBJD}
+    vis = "<%s>::get_visible_fields_order" % OBJD
+    G = pushgraph.PushGraph(F)
+    run = G.run
+    body = run.body
+    sw, ent = G.arm_entries()
+    tail = {bb for bb, t in body.calls() if (callee_name(t) or "") == "<%s>::maybe_gc" % em.PROGRAM}
+    for v in ("EqualsValue", "EqualsObject"):
+        if v not in ent:
+            rep.violation(R, "anchor|State::%s" % v, "State::%s has no arm in Evaluator::run" % v)
+            continue
+        seen = cfg.reachable(body.succ_map(), [ent[v]], blocked_nodes=list(tail | {sw}))
+        bodies = [(run, [b for b in sorted(seen) if not body.blocks[b]["cleanup"]])]
+        # closures created in the arm, and evaluator methods it calls directly
+        for b in list(bodies[0][1]):
+            for st in body.blocks[b]["s"]:
+                if st["k"] == "assign" and st["rv"]["k"] == "agg" and st["rv"]["ak"] == "closure":
+                    c = F.fn_opt(st["rv"]["d"])
+                    if c is not None:
+                        bodies.append((c, list(range(len(c.body.blocks)))))
+            t = body.blocks[b]["t"]
+            if t["k"] == "call":
+                n = callee_name(t) or ""
+                if n.startswith("<%s>::do_" % em.EVAL):
+                    g = F.fn_opt(n)
+                    if g is not None:
+                        bodies.append((g, list(range(len(g.body.blocks)))))
+                        for c in F.closures_of(g):
+                            bodies.append((c, list(range(len(c.body.blocks)))))
+        nvis = 0
+        bad = []
+        for fn, blocks in bodies:
+            for b in blocks:
+                t = fn.body.blocks[b]["t"]
+                if t["k"] != "call":
+                    continue
+                n = callee_name(t) or ""
+                if n == vis:
+                    nvis += 1
+                if n in blind:
+                    bad.append((fn, n, fn.body.span(t["sp"])))
+        if v == "EqualsValue":
+            ok = nvis >= 2
+            rep.ob(R, "EqualsValue|visible-lists", ok, {"get_visible_fields_order_calls": nvis})
+            if not ok:
+                rep.violation(R, "EqualsValue|visible-lists", "the object arm of equality takes the visible field list of %d "
+                              "operand(s); both sides' visible names must be compared" % nvis, run.loc)
+        rep.ob(R, "%s|no-visibility-blind-query" % v, not bad, {"functions_scanned": sorted({fn.q for fn, _ in bodies})})
+        for fn, n, site in bad:
+            rep.violation(R, "%s|%s|visibility-blind" % (v, n.rsplit("::", 1)[1]),
+                          "equality (state %s) asks %s, which also finds hidden fields: a visible field of one operand is "
+                          "matched with a hidden field of the other, so objects that manifest differently compare equal"
+                          % (v, n.rsplit("::", 1)[1]), site)
+
+
 def run(F, rep, tier):
     rule_r1(F, rep)
     rule_r2(F, rep)
     rule_r3(F, rep)
     rule_r4(F, rep)
+    rule_r5(F, rep)
     rep.assume("reflexivity, symmetry and transitivity over values are consequences of R1-R4 plus C06 (no NaN) "
                "and are not themselves decided; object equality uses get_visible_fields_order on both sides (C07)")
     return EXPLANATION
